@@ -100,6 +100,7 @@ var onlyFilter string
 type storeDef struct{ base, idx, val string }
 
 type Eng struct {
+	pendingUp *Frame
 	cloByTerm map[string]*Closure
 	covSeq int
 	ld   *Loaded
@@ -773,6 +774,8 @@ type Frame struct {
 	freeVals map[string]*Val
 	autoBounds map[*ssa.BasicBlock]func(*State, map[*ssa.Phi]*Val, *ssa.BasicBlock, string)
 	siteIns  ssa.Instruction
+	up       *Frame // the frame this one is inlined into
+	ownSites map[string]bool
 	siteOrds map[ssa.Instruction]int
 }
 
